@@ -251,12 +251,17 @@ func innermostLoops(n ast.Node, out *[]*ast.BlockStmt) {
 	})
 }
 
-func dumpCols(root string) string {
+// dumpCols prints the translated code of one package (closest | snps | updown | variants | sam): one generated file per
+// package, so that a rewrite the translator cannot follow only touches the obligations that rely on that package
+func dumpCols(root string, group string) string {
 	var b strings.Builder
-	b.WriteString("-- GENERATED by `gfh facts` (go/ast translator cols.go) from the working tree: do not edit.\n")
-	b.WriteString("-- the per-column code of the comparison loops of pkg/, as Lean functions of the two column codes\n")
+	b.WriteString("-- GENERATED by `gfh cols " + group + "` (go/ast translator cols.go) from the working tree: do not edit.\n")
+	b.WriteString("-- the per-column code of the comparison loops of pkg/" + group + ", as Lean functions\n")
 	b.WriteString("namespace Gofasta.Gen.Cols\n\n")
 	for _, sp := range colSpecs {
+		if filepath.Base(filepath.Dir(sp.file)) != group {
+			continue
+		}
 		fset := token.NewFileSet()
 		af, err := parser.ParseFile(fset, filepath.Join(root, sp.file), nil, 0)
 		name := strings.TrimSuffix(filepath.Base(sp.file), ".go") + "_" + sp.fn
@@ -340,6 +345,9 @@ func dumpCols(root string) string {
 		fmt.Fprintf(&b, "  let (%s) := (\n%s)\n  [%s]\n\n", strings.Join(sp.counters, ", "), t.counterStmts(body.List, sp.counters, "    "), strings.Join(sp.counters, ", "))
 	}
 	b.WriteString("end Gofasta.Gen.Cols\n")
+	if group == "sam" {
+		b.WriteString(dumpIntFuncs(root))
+	}
 	return b.String()
 }
 
